@@ -16,7 +16,9 @@ RULE = (
     "far-rim-on-sphere and near-cylinder configurations) x orientations x centre offsets; per sphere-frustum case both ends x "
     "{sphere.intersect(frustum), sphere.union(frustum), frustum.union(sphere)} x every answer of the RNG menu for "
     "find_unit_vector_on_plane; reference = adaptive Gauss-Legendre quadrature of pi*rho(z)^2 with rho = min/max of the "
-    "cross-section radii (plain Python, no closed form of the composite solids); non-trivial = every case; distinct = "
+    "cross-section radii (plain Python, no closed form of the composite solids); composite objects are retained and asked "
+    "again after later calls; query histories: every ordered pair (triple) of 12 prepared objects queried in order and again; "
+    "one sphere shared by several composites; non-trivial = every case; distinct = "
     "distinct (solid, parameters, orientation, offset)"
 )
 ASSUMPTIONS = [
@@ -206,6 +208,16 @@ def _cmp(R, got, want, scale, kind, detail, klass, rel=REL):
             lambda: f"{detail()}: returned {got!r}, true volume {want!r} (rel err {abs(got - want) / max(abs(want), 1e-300):.3g})", klass)
 
 
+def _within(got, want, scale, rel=REL):
+    return bool(_num(got) and abs(float(got) - want) <= rel * abs(want) + ABS * scale)
+
+
+def _retain(R, label, obj, want, scale):
+    """The object keeps answering with the true volume after later library calls (this case and the next two)."""
+    if hasattr(R, "retain"):
+        R.retain(label, lambda o=obj, w=want, sc=scale: _within(o.get_volume(), w, sc))
+
+
 def _selfcheck(quad, exact, what, scale):
     if abs(quad - exact) > 1e-11 * abs(exact) + 1e-13 * scale:
         raise RuntimeError(f"oracle self-check failed for {what}: quadrature {quad!r} vs exact {exact!r}")
@@ -248,7 +260,9 @@ def check_sphere(case, R):
     ok, v2 = R.impl("VolSphere.get_volume", s.get_volume)
     ok3, v3 = R.impl("VolSphere.get_volume", s.get_volume)
     if ok and ok3:
+        _cmp(R, v2, want, r**3, "volume:sphere", lambda: f"sphere r={r}: get_volume() after the cap queries", "volume:sphere:after-cap-queries", rel=1e-12)
         R.check(v2 == v3, "volume:unstable", lambda: f"sphere r={r}: get_volume() twice gives {v2!r}, {v3!r}")
+        _retain(R, "VolSphere.get_volume", s, want, r**3)
 
 
 def check_frustum(case, R):
@@ -266,9 +280,11 @@ def check_frustum(case, R):
         a1, a2 = int(r1), int(r2)
     else:
         c1, c2, a1, a2 = np.array(c), _pt(c, u, h), r1, r2
-    ok, v = R.impl("VolFrustumCone.get_volume", lambda: VolFrustumCone(c1, a1, c2, a2).get_volume())
+    fr = VolFrustumCone(c1, a1, c2, a2)
+    ok, v = R.impl("VolFrustumCone.get_volume", fr.get_volume)
     if ok:
         _cmp(R, v, want, scale, "volume:frustum", lambda: f"frustum r1={r1} r2={r2} h={h} axis={u} at {c}", "volume:frustum")
+        _retain(R, "VolFrustumCone.get_volume", fr, want, scale)
     ok, v = R.impl("VolFrustumCone.calc_volume", VolFrustumCone.calc_volume, r1, r2, h)
     if ok:
         _cmp(R, v, want, scale, "volume:frustum", lambda: f"calc_volume({r1},{r2},{h})", "volume:frustum:static", rel=1e-12)
@@ -317,6 +333,14 @@ def check_two_spheres(case, R):
         if ok:
             op = "intersect" if "intersect" in nm else "union"
             _cmp(R, v, want, scale, f"volume:two-spheres:{op}", what(nm), f"volume:two-spheres:{op}:{cls}")
+    for nm, op, want in (("s1.intersect(s2)", "intersect", wi), ("s1.union(s2)", "union", wu)):
+        ok, obj = R.impl(nm + ":construct", getattr(VolSphere(c1, r1), op), VolSphere(c2, r2))
+        if ok:
+            with _FastMC():
+                ok, v = R.impl(nm, obj.get_volume)
+            if ok:
+                _cmp(R, v, want, scale, f"volume:two-spheres:{op}", what(nm + " (kept object)"), f"volume:two-spheres:{op}:{cls}")
+                _retain(R, nm, obj, want, scale)
 
 
 def check_sphere_frustum(case, R):
@@ -353,10 +377,19 @@ def check_sphere_frustum(case, R):
                 calls.append(("frustum.union(sphere)", "union",
                               lambda: VolFrustumCone(c1, r1, c2, r2).union(VolSphere(centre, r_near)).get_volume(), wu))
             for nm, op, fn, want in calls:
+                if mi == 0 and nm != "frustum.union(sphere)":
+                    # keep the composite object: it is asked again after later calls (retained)
+                    make = VolSphere(centre, r_near).intersect if op == "intersect" else VolSphere(centre, r_near).union
+                    ok, obj = R.impl(nm + ":construct", make, VolFrustumCone(c1, r1, c2, r2))
+                    if not ok:
+                        continue
+                    fn = obj.get_volume
                 with _FastMC(), _Rng(ans, seed) as rng, _Spy() as spy:
                     ok, v = R.impl(nm, fn)
                 if ok:
                     _cmp(R, v, want, scale, f"volume:sphere-frustum:{op}", where(nm), f"volume:sphere-frustum:{op}:{path}")
+                    if mi == 0 and nm != "frustum.union(sphere)":
+                        _retain(R, nm, obj, want, scale)
                 if op == "intersect":
                     if not spy.log:
                         R.note("impl-path:no-line-test")
@@ -364,6 +397,104 @@ def check_sphere_frustum(case, R):
                         R.note("impl-path:line-hits=" + str(spy.log[-1]))
                     if rng.calls > 1:
                         R.note("rng-retry-loop-driven")
+
+
+# ------------------------------------------------------------------ call histories
+
+QUERIES = [
+    ("sphere", 1.0, 0),
+    ("sphere", 2.0, 1),
+    ("frustum", 1.0, 0.5, 2.0, 4, 0),
+    ("frustum", 0.5, 1.0, 2.0, 12, 1),
+    ("ss", "intersect", 1.0, 1.5, 2.0, 0, 0),
+    ("ss", "union", 1.5, 1.0, 2.0, 12, 1),
+    ("ss", "intersect", 1.0, 1.0, 0.0, 0, 0),
+    ("sf", "intersect", 1.0, 0.5, 2.0, 0, 4, 0),   # narrowing, taller than the sphere
+    ("sf", "intersect", 1.0, 0.5, 2.0, 1, 4, 0),   # the same frustum from its other end (widening)
+    ("sf", "union", 1.0, 0.9, 0.5, 0, 12, 1),      # narrowing, lower than the sphere
+    ("sf", "intersect", 2.0, 1.0, 1.0, 0, 9, 0),   # cone inside the sphere
+    ("sf", "union", 2.0, 1.0, 1.0, 1, 9, 0),
+]
+
+
+def _build_query(q):
+    """(label, object with get_volume(), true volume, scale, needs_rng)"""
+    from swcgeom.utils import VolFrustumCone, VolSphere
+
+    if q[0] == "sphere":
+        _, r, ci = q
+        return f"sphere r={r}", VolSphere(np.array(OFFSETS[ci]), r), G.vol_sphere(r), r**3
+    if q[0] == "frustum":
+        _, r1, r2, h, oi, ci = q
+        c = OFFSETS[ci]
+        return f"frustum {r1},{r2},{h}", VolFrustumCone(np.array(c), r1, _pt(c, ORIENT_T[oi], h), r2), G.vol_frustum(r1, r2, h), max(r1, r2) ** 2 * h
+    if q[0] == "ss":
+        _, op, r1, r2, d, oi, ci = q
+        c = OFFSETS[ci]
+        a, b = VolSphere(np.array(c), r1), VolSphere(_pt(c, ORIENT_T[oi], d), r2)
+        return f"spheres {r1},{r2},d={d} {op}", getattr(a, op)(b), G.vol_two_spheres(r1, r2, d, "min" if op == "intersect" else "max"), max(r1, r2) ** 3
+    _, op, r1, r2, h, end, oi, ci = q
+    c = OFFSETS[ci]
+    c1, c2 = np.array(c), _pt(c, ORIENT_T[oi], h)
+    r_near, r_far = (r1, r2) if end == 0 else (r2, r1)
+    sp = VolSphere(c1 if end == 0 else c2, r_near)
+    return (f"sphere on end {end} of frustum {r1},{r2},{h} {op}", getattr(sp, op)(VolFrustumCone(c1, r1, c2, r2)),
+            G.vol_sphere_frustum(r_near, r_far, h, "min" if op == "intersect" else "max"), max(r1, r2) ** 2 * max(h, r_near))
+
+
+def check_history(case, R):
+    """Objects built up front and queried in sequence, then all queried a second time: every answer is the
+    true volume of *its* solid whatever was asked before (no state shared between objects or calls)."""
+    seq = list(case[1])
+    R.state("history", seq)
+    seed = dg("c13h", case)
+    built = []
+    for qi in seq:
+        ok, b = R.impl("construct", _build_query, QUERIES[qi])
+        if not ok:
+            return
+        built.append(b)
+    for rnd, ans in ((1, FIXED[:4]), (2, [FIXED[1], FIXED[2], FIXED[0]])):
+        for pos, (label, obj, want, scale) in enumerate(built):
+            with _FastMC(), _Rng(ans, seed):
+                ok, v = R.impl("get_volume", obj.get_volume)
+            if ok:
+                _cmp(R, v, want, scale, "volume:history", lambda: f"query #{pos} of {[QUERIES[i] for i in seq]} (round {rnd}): {label}",
+                     f"volume:history:{QUERIES[seq[pos]][0]}:round{rnd}")
+    R.outcome(tuple(seq))
+
+
+def check_shared_sphere(case, R):
+    """One sphere object takes part in several composites and is asked for its own volume / caps in between."""
+    from swcgeom.utils import VolFrustumCone, VolSphere
+
+    seq = list(case[1])
+    R.state("shared", seq)
+    seed = dg("c13s", case)
+    c = OFFSETS[1]
+    u = ORIENT_T[12]
+    s = VolSphere(np.array(c), 1.0)
+    f1 = VolFrustumCone(np.array(c), 1.0, _pt(c, u, 2.0), 0.5)
+    f2 = VolFrustumCone(np.array(c), 1.0, _pt(c, tuple(-v for v in u), 0.5), 2.0)
+    s2 = VolSphere(_pt(c, u, 1.5), 1.25)
+    menu_ = {
+        0: ("s.intersect(f1)", lambda: s.intersect(f1).get_volume(), G.vol_sphere_frustum(1.0, 0.5, 2.0, "min")),
+        1: ("s.intersect(f2)", lambda: s.intersect(f2).get_volume(), G.vol_sphere_frustum(1.0, 2.0, 0.5, "min")),
+        2: ("s.union(f1)", lambda: s.union(f1).get_volume(), G.vol_sphere_frustum(1.0, 0.5, 2.0, "max")),
+        3: ("f2.union(s)", lambda: f2.union(s).get_volume(), G.vol_sphere_frustum(1.0, 2.0, 0.5, "max")),
+        4: ("s.intersect(s2)", lambda: s.intersect(s2).get_volume(), G.vol_two_spheres(1.0, 1.25, 1.5, "min")),
+        5: ("s2.union(s)", lambda: s2.union(s).get_volume(), G.vol_two_spheres(1.0, 1.25, 1.5, "max")),
+        6: ("s.get_volume()", s.get_volume, G.vol_sphere(1.0)),
+        7: ("s.get_volume_spherical_cap(0.5)", lambda: s.get_volume_spherical_cap(0.5), G.vol_cap(1.0, 0.5)),
+        8: ("f1.get_volume()", f1.get_volume, G.vol_frustum(1.0, 0.5, 2.0)),
+    }
+    for pos, k in enumerate(seq):
+        nm, fn, want = menu_[k]
+        with _FastMC(), _Rng(FIXED[:4], seed):
+            ok, v = R.impl(nm, fn)
+        if ok:
+            _cmp(R, v, want, 8.0, "volume:shared-sphere", lambda: f"call #{pos} of {[menu_[i][0] for i in seq]}: {nm}", f"volume:shared-sphere:{nm}")
+    R.outcome(tuple(seq))
 
 
 # ------------------------------------------------------------------ spaces
@@ -431,6 +562,25 @@ def spaces(tier, seed):
                     continue
                 yield ["sphere-frustum", r1 * s, r2 * s, h * s, 12, 1, tier]
 
+    def gen_hist():
+        k = len(QUERIES)
+        for i in range(k):
+            for j in range(k):
+                yield ["history", [i, j]]
+        if not quick:
+            for i in range(k):
+                for j in range(k):
+                    for l in range(k):
+                        yield ["history", [i, j, l]]
+
+    def gen_shared():
+        for i in range(9):
+            for j in range(9):
+                yield ["shared", [i, j]]
+                if not quick:
+                    for l in range(9):
+                        yield ["shared", [i, j, l]]
+
     common = {"orientations": n_or, "centre_offsets": [OFFSETS[i] for i in offs], "size_scales": list(scales)}
     return [
         Space.of("sphere-and-cap", gen_sphere, check_sphere, bounds={"radii": [r * s for s in scales for r in rad], "cap_height_over_r": CAP_FRACS}),
@@ -442,4 +592,10 @@ def spaces(tier, seed):
                          "triples": len(triples), "ends": 2, "rng_menu": "real generator (seeded) + parallel-to-axis + 4 fixed answers"
                          + ("" if quick else " + 2 more fixed + almost-parallel + three parallel answers in a row"),
                          "reference_cases_reached": paths, **common}),
+        Space.of("query-histories", gen_hist, check_history,
+                 bounds={"objects": len(QUERIES), "sequence_length": "2" if quick else "2 and 3", "rounds": 2,
+                         "note": "all objects built first, queried in order, then all queried again under other rand answers"}),
+        Space.of("shared-sphere", gen_shared, check_shared_sphere,
+                 bounds={"calls": 9, "sequence_length": "2" if quick else "2 and 3",
+                         "note": "one sphere object used by two frusta and a second sphere; composites, own volume and cap interleaved"}),
     ]
